@@ -131,6 +131,9 @@ func (s *Sniffer) readStreamOnceWithReadDeadline() error {
 
 	var netErr net.Error
 	if errors.As(err, &netErr) && netErr.Timeout() {
+		// The expired deadline was the sniffer's own and is cleared on return, so the
+		// connection is still usable: do not replay this timeout to the relay phase.
+		s.dataError = nil
 		// Keep behavior consistent with context timeout path in the legacy async read.
 		return fmt.Errorf("%w: %w", ErrNotApplicable, context.DeadlineExceeded)
 	}
